@@ -187,7 +187,7 @@ func (g *gen) wideSpan(label string) (string, string) {
 // forcedWrite appends a single-op write step of the given kind (falls back to
 // "set" when the profile or format version does not allow the kind).
 func (g *gen) forcedWrite(label, kind string, wide bool) {
-	if g.p.OpW[kind] == 0 || (g.p.NoRangeKeys && (kind == "rkset" || kind == "rkdel")) {
+	if g.p.OpW[kind] == 0 || (g.p.NoRangeKeys && (kind == "rkset" || kind == "rkdel")) || (g.p.NoMergeSdel && (kind == "merge" || kind == "sdel")) {
 		kind = "set"
 	}
 	o := Op{K: kind}
@@ -264,7 +264,37 @@ func (g *gen) motif(label string) {
 	if g.p.MaxBatches > 0 && g.enabled("ibop") && g.enabled("iternew") {
 		nm = 5 // the batch-refresh motif, twice as likely
 	}
-	switch rapid.IntRange(0, nm).Draw(g.t, label+"motif") {
+	m := rapid.IntRange(0, nm+1).Draw(g.t, label+"motif")
+	if m == nm+1 {
+		if !g.enabled("iternew") || g.p.MaxIters == 0 {
+			m = 1
+		} else {
+			m = 100
+		}
+	}
+	switch m {
+	case 100: // a reader pinned across maintenance and quiescence, closed, quiescence again
+		writes(1, rapid.IntRange(1, 4).Draw(g.t, label+"n1"))
+		sub(2, "flush")
+		if len(g.iters) >= g.p.MaxIters && len(g.iters) > 0 {
+			id := g.iters[0]
+			g.iters = remove(g.iters, id)
+			g.steps = append(g.steps, Step{K: "iterclose", ID: id})
+		}
+		it := Step{K: "iternew", ID: g.newID(), On: "db"}
+		io := g.iterOpts(label + "io")
+		it.IO = &io
+		it.IOps = g.iterOps(label+"i1", rapid.IntRange(0, 3).Draw(g.t, label+"ni"), true)
+		g.iters = append(g.iters, it.ID)
+		g.iterOn[it.ID] = "db"
+		g.steps = append(g.steps, it)
+		writes(3, rapid.IntRange(1, 4).Draw(g.t, label+"n2"))
+		sub(4, "flush")
+		sub(5, "compact")
+		sub(6, "wait")
+		g.iters = remove(g.iters, it.ID)
+		g.steps = append(g.steps, Step{K: "iterclose", ID: it.ID})
+		sub(7, "wait")
 	case 4, 5: // indexed batch mutated under a positioned (possibly limit-paused) batch iterator, then refreshed
 		var bid int
 		if len(g.ibs) > 0 {
